@@ -553,6 +553,95 @@ impl Vm {
         idx as u16
     }
 
+    /// Verification hook: a canonical text dump of the compiled program
+    /// (constants, struct table, and every chunk instruction by instruction).
+    #[cfg(feature = "verif")]
+    pub fn verif_dump(&self) -> String {
+        let mut out = String::new();
+        out.push_str("K:");
+        for (i, c) in self.constants.iter().enumerate() {
+            if i > 0 {
+                out.push(',');
+            }
+            match c {
+                Constant::Scalar(n) => out.push_str(&format!("n{n}")),
+                Constant::Unit(u) => out.push_str(&format!("u{u}")),
+                Constant::Boolean(b) => out.push_str(if *b { "bT" } else { "bF" }),
+                Constant::String(s) => out.push_str(&format!("s\"{s}\"")),
+                Constant::FunctionReference(FunctionReference::Normal(n)) => {
+                    out.push_str(&format!("f{n}"))
+                }
+                Constant::FunctionReference(FunctionReference::Foreign(n)) => {
+                    out.push_str(&format!("F{n}"))
+                }
+                Constant::FunctionReference(FunctionReference::TzConversion(n)) => {
+                    out.push_str(&format!("z{n}"))
+                }
+                Constant::FormatSpecifiers(None) => out.push_str("p-"),
+                Constant::FormatSpecifiers(Some(s)) => out.push_str(&format!("p\"{s}\"")),
+            }
+        }
+        out.push_str(" S:");
+        for (i, (name, info)) in self.struct_infos.iter().enumerate() {
+            if i > 0 {
+                out.push(',');
+            }
+            out.push_str(name);
+            out.push('(');
+            out.push_str(
+                &info
+                    .fields
+                    .keys()
+                    .map(|k| k.as_str())
+                    .collect::<Vec<_>>()
+                    .join("."),
+            );
+            out.push(')');
+        }
+        for (function_name, bytecode, _spans) in self.bytecode.iter() {
+            out.push_str(&format!(" C:{function_name}:"));
+            let mut offset = 0;
+            let mut first = true;
+            while offset < bytecode.len() {
+                let op = unsafe { std::mem::transmute::<u8, Op>(bytecode[offset]) };
+                offset += 1;
+                if !first {
+                    out.push(',');
+                }
+                first = false;
+                out.push_str(op.to_string());
+                // `num_operands` (used by the debug disassembler only) under-reports
+                // CallCallable and FFICallFunction: the compiler emits and the VM reads
+                // two resp. three operands
+                let num_operands = match op {
+                    Op::CallCallable => 2,
+                    Op::FFICallFunction => 3,
+                    _ => op.num_operands(),
+                };
+                for k in 0..num_operands {
+                    let operand =
+                        u16::from_le_bytes(bytecode[offset..(offset + 2)].try_into().unwrap());
+                    offset += 2;
+                    let is_ffi_idx =
+                        k == 0 && matches!(op, Op::FFICallFunction | Op::FFICallProcedure);
+                    if is_ffi_idx {
+                        // the position of a procedure in `ffi_callables` depends on hash-map
+                        // iteration order; report the name instead
+                        let name = self
+                            .ffi_callables
+                            .get_index(operand as usize)
+                            .map(|(n, _)| *n)
+                            .unwrap_or("?");
+                        out.push_str(&format!(" {name}"));
+                    } else {
+                        out.push_str(&format!(" {operand}"));
+                    }
+                }
+            }
+        }
+        out
+    }
+
     pub fn disassemble(&self) {
         if !self.debug {
             return;
